@@ -20,6 +20,7 @@ class Facts:
         short_name.cache_clear()
         from . import mirinline
         self.inlined = mirinline.inline_new_helpers(d, lambda p_: short_name(p_, True))      # helpers newer than the rules are spliced into their callers
+        self.for_each = mirinline.desugar_for_each(d)      # `it.for_each(|x| ..)` becomes the MIR of `for x in it {..}`
         for b in d['bodies']:
             body = Body(b, self)
             self.bodies[body.path] = body
